@@ -60,6 +60,18 @@ example : HistMem 3 [.notify 0 true none, .notify 1 true (some 5), .notify 2 tru
   · simp [HistMem]
   · decide
 
+/-- **The cached best is always believed alive, all histories.** After any sequence of
+notifications and policy switches that only name members — any latencies, offsets, tolerance, in
+any order — the node `GetMinLatency(nil)` would hand out from its cache is a member of the alive
+list; under `random` nothing is cached. -/
+theorem best_is_alive_or_nil (n : Nat) (tol : Int) (offs : Nat → Int) (p : Policy) (h : List SetEv)
+    (hm : HistMem n h) :
+    let s := runSet (ASet.init n tol offs p) h
+    (∀ d, s.minD = some d → ∃ e ∈ s.entries, e.d = d) ∧ (s.policy.isMin = false → s.minD = none) := by
+  intro s
+  have := minv_run h (ASet.init n tol offs p) (minv_init n tol offs p) hm
+  exact ⟨this.bestIn, this.nonMin⟩
+
 /-! ## B. the cached best, the tolerance rule (min policies) -/
 
 /-- **The invariant behind B/C**, for all histories that respect `HistOk` (members only; a
@@ -72,7 +84,7 @@ dialer the set has a latency for keeps reporting one; sorting latency + toleranc
   tolerance or more;
 * the cached best latency is the best's own sorting latency, except for the optimistic "first
   alive, never measured" choice, whose cached latency is still `time.Hour`. -/
-theorem alive_set_invariant (n : Nat) (tol : Int) (offs : Nat → Int) (p : Policy) (h : List SetEv)
+theorem alive_set_invariant_partial (n : Nat) (tol : Int) (offs : Nat → Int) (p : Policy) (h : List SetEv)
     (ht : 0 ≤ tol) (hok : HistOk (ASet.init n tol offs p) h) :
     let s := runSet (ASet.init n tol offs p) h
     (∀ d, s.minD = some d → ∃ e ∈ s.entries, e.d = d ∧ (e.sl = s.minL ∨ (s.minL = hour ∧ s.lat d = none))) ∧
@@ -103,6 +115,81 @@ example : HistOk (ASet.init 2 30 (fun _ => 0) .minLast)
   refine ⟨⟨⟨by decide, by intros; simp, by intro r h; cases h; decide⟩,
            ⟨by decide, by intros; simp, by intro r h; cases h; decide⟩,
            ⟨by decide, by intros; simp, by intro r h; cases h; decide⟩, trivial⟩, by decide, by decide⟩
+
+/-- The full-strength form of the `nil ↔ nobody alive` clause: as in
+`alive_set_invariant_partial` but for ANY offsets/latencies/tolerance (no `time.Hour` bound).
+It is FALSE of the code as it is — see `nil_iff_no_alive_full_fails` — which is why the proved
+theorem carries the bound (finding `c15-hour-sentinel` in design_notes/C15.md). -/
+def nil_iff_no_alive_full : Prop :=
+  ∀ (n : Nat) (tol : Int) (offs : Nat → Int) (p : Policy) (h : List SetEv), 0 ≤ tol →
+    HistOkNoBound (ASet.init n tol offs p) h →
+    let s := runSet (ASet.init n tol offs p) h
+    s.policy.isMin = true → (s.minD = none ↔ s.entries = [])
+
+/-- A node whose `add_latency` is one hour: its first successful probe makes it alive, yet the
+cached best stays `nil` and `GetMinLatency` answers `nil` ("no alive dialer"). -/
+theorem nil_iff_no_alive_full_fails : ¬ nil_iff_no_alive_full := by
+  intro h
+  have := h 1 0 (fun _ => hour) .minLast [.notify 0 true (some 1000000)] (by decide)
+    ⟨⟨by decide, by intro _ h; exact absurd rfl h⟩, trivial⟩ (by decide)
+  have h1 : (runSet (ASet.init 1 0 (fun _ => hour) .minLast) [.notify 0 true (some 1000000)]).minD = none := by decide
+  have h2 := this.mp h1
+  revert h2
+  decide
+
+example : (getMin (runSet (ASet.init 1 0 (fun _ => hour) .minLast) [.notify 0 true (some 1000000)]) none).1 = none := by
+  decide
+
+/-- **The tolerance rule as a relation between consecutive states** (min policies). From any
+state reached by an admissible history, one more notification changes the choice from `b` to
+another node `b'` only if
+* `b` is no longer alive, or
+* `b` has no measurement (yet), or
+* `b'` is not worse than `b` and either better by at least the tolerance, or `b`'s latency is
+  itself below the tolerance (sorting latencies = measurement + offset, after the notification);
+and the choice becomes `nil` only when nobody is alive any more.  (The remaining way to change the
+choice is a policy switch, which is a different event.) -/
+theorem switch_only_when (n : Nat) (tol : Int) (offs : Nat → Int) (p : Policy) (h : List SetEv)
+    (ht : 0 ≤ tol) (hok : HistOk (ASet.init n tol offs p) h) (d : Nat) (alive : Bool) (snap : Option Int) :
+    let s := runSet (ASet.init n tol offs p) h
+    s.policy.isMin = true → NotifyOk s d snap →
+    let s' := (notify s d alive snap).1
+    (∀ b b', s.minD = some b → s'.minD = some b' → b ≠ b' →
+      (¬ ∃ e ∈ s'.entries, e.d = b) ∨ s'.lat b = none ∨
+      (∃ eb ∈ s'.entries, ∃ eb' ∈ s'.entries, eb.d = b ∧ eb'.d = b' ∧ eb'.sl ≤ eb.sl ∧
+        (eb'.sl + tol ≤ eb.sl ∨ eb.sl < tol))) ∧
+    (s'.minD = none → s'.entries = []) := by
+  intro s hm ok s'
+  have hs : SInv s := sinv_run h _ (sinv_init n tol offs p ht) hok
+  have htol : s.tol = tol := by
+    have : ∀ (h : List SetEv) (s0 : ASet), (runSet s0 h).tol = s0.tol := by
+      intro h
+      induction h with
+      | nil => intro s0; rfl
+      | cons e es ih =>
+        intro s0
+        show (runSet (stepSet s0 e) es).tol = s0.tol
+        rw [ih]
+        cases e with
+        | notify d a sn => exact (notify_frame s0 d a sn).2.1
+        | setPolicy p sa => exact (setPolicy_frame s0 p sa).2.1
+    exact this h _
+  constructor
+  · intro b b' hb hb' hne
+    have := switch_notify hs hm ok hb hb' hne
+    rw [htol] at this
+    exact this
+  · intro hn
+    have hs' : SInv s' := sinv_notify hs ok
+    exact hs'.nilEmpty (by rw [(notify_frame s d alive snap).2.2.2.1]; exact hm) hn
+
+-- non-vacuity: the switch of the example above happens through the third disjunct (70 + 30 ≤ 100)
+example : (notify (runSet (ASet.init 2 30 (fun _ => 0) .minLast) [.notify 0 true (some 100), .notify 1 true (some 80)])
+    1 true (some 70)).1.minD = some 1 := by decide
+
+-- ties: with tolerance 0 an equally fast node takes over (the code's gate is `≤`)
+example : (notify (runSet (ASet.init 2 0 (fun _ => 0) .minLast) [.notify 0 true (some 50)]) 1 true (some 50)).1.minD = some 1 := by
+  decide
 
 /-- **What `GetMinLatency(nil)` hands out** (state form; `SInv s` holds after every history by
 `alive_set_invariant`'s proof): an alive node; the latency returned with it is that node's sorting
@@ -212,9 +299,95 @@ theorem select_min_is_unbeaten {rnd : Nat → Nat → Nat → Nat} {g : Group} {
   have hhs : g.hasSets = true := by rw [hg.hasSets]; cases hq : g.policy <;> simp_all [needsAlive]
   rcases select_ok hp (fun ty => (hg.sets hhs ty).1) h with ⟨ty, hty, _, _, h3⟩ | ⟨_, _, _, hl, _⟩
   · have hgm := h3 hm
-    have hpol : (g.sets ty.index).policy.isMin = true := by rw [(hg.sets hhs ty.index).2]; exact hm
+    have hpol : (g.sets ty.index).policy.isMin = true := by rw [(hg.sets hhs ty.index).2.1]; exact hm
     exact ⟨ty, hty, hgm, getMin_tolerance (hg.sets hhs ty.index).1 hpol hgm⟩
   · exact absurd hl hnl
+
+/-- **All histories, no assumption on latencies: selection only hands out nodes believed alive,
+never the excluded one.**  Start from `NewDialerGroup` with any members' state, apply any sequence
+of notifications (any domain, alive or not, any snapshot) and policy switches that only name
+members; then whatever `SelectWithExclusionResult` returns under random/min is alive in the set
+of one of the consulted domains and is not the excluded node — or it is the single-node last
+resort (`strict`, one-node group; node 0 with latency `dialer.Timeout`). -/
+theorem selected_node_is_alive_all_histories (n : Nat) (tol : Int) (offs : Nat → Int) (p : Policy)
+    (fi : Int) (alive0 : Nat → Nat → Bool) (snap0 : Nat → Nat → Option Int) (h : List GEv)
+    (hm : GHistMem n h) (rnd : Nat → Nat → Nat → Nat) (t : NetType) (strict : Bool)
+    (excl : Option Nat) (x : SelOk) :
+    let g := runG (gNew n tol offs p fi alive0 snap0).1 h
+    g.policy ≠ .fixed → select rnd g t strict excl = .ok x →
+    (∃ ty ∈ tried g t strict, (∃ e ∈ (g.sets ty.index).entries, e.d = x.d) ∧ excl ≠ some x.d) ∨
+    (strict = true ∧ g.n = 1 ∧ x.d = 0 ∧ x.lat = dialTimeout) := by
+  intro g hp hsel
+  obtain ⟨h0, n0⟩ := gminv_gNew n tol offs p fi alive0 snap0
+  have hg : GMInv g := gminv_run h _ h0 (by rw [n0]; exact hm)
+  exact select_ok_alive hp (fun ty => (hg.sets ty).1) hsel
+
+/-- **The group invariant holds after every admissible history** (`GHistOk`: members only, a
+dialer a set has a latency for keeps reporting one, sorting latency + tolerance below
+`time.Hour`): the six sets exist exactly under random/min, run the group's policy and satisfy
+the set invariant — the hypothesis `GInv` of the selection theorems above.  `_partial`: the bound
+is needed (see `nil_iff_no_alive_full_fails`). -/
+theorem group_invariant_all_histories_partial (n : Nat) (tol : Int) (offs : Nat → Int) (p : Policy)
+    (fi : Int) (alive0 : Nat → Nat → Bool) (snap0 : Nat → Nat → Option Int) (h : List GEv)
+    (ht : 0 ≤ tol) (hb : ∀ t d r, snap0 t d = some r → r + offs d + tol < hour)
+    (hok : GHistOk (gNew n tol offs p fi alive0 snap0).1 h) :
+    GInv (runG (gNew n tol offs p fi alive0 snap0).1 h) :=
+  ginv_run h _ (ginv_gNew n tol offs p fi alive0 snap0 ht hb)
+    (by rw [gNew_tol]; exact ht) hok
+
+-- non-vacuity: a two-node `min` group, tolerance 30; node 0 measured 100 on tcp4, then node 1
+-- measured 60: the invariant's hypotheses hold and the selection really switches to node 1.
+example : GHistOk (gNew 2 30 (fun _ => 0) .minLast 0 (fun _ _ => true) (fun _ _ => none)).1
+      [.notify 2 0 true (some 100), .notify 2 1 true (some 60)] ∧
+    (select (fun _ _ _ => 0) (runG (gNew 2 30 (fun _ => 0) .minLast 0 (fun _ _ => true) (fun _ _ => none)).1
+      [.notify 2 0 true (some 100), .notify 2 1 true (some 60)]) ⟨false, false, false, .unset⟩ true none).toOption
+      = some ⟨1, 60, 2⟩ := by
+  refine ⟨⟨fun _ => ⟨by decide, by intros; simp, by intro r h; cases h; decide⟩,
+           fun _ => ⟨by decide, by intros; simp, by intro r h; cases h; decide⟩, trivial⟩, by decide⟩
+
+-- the data-UDP fallback chain and the other-family fallback are really reachable
+example : (select (fun _ _ _ => 0)
+    (runG (gNew 1 0 (fun _ => 0) .minLast 0 (fun _ _ => true) (fun _ _ => none)).1
+      [.notify 4 0 false none, .notify 0 0 false none])
+    ⟨true, false, false, .data⟩ true none).toOption = some ⟨0, hour, 2⟩ := by decide
+
+/-- **`chooseProxyDialer`'s selection** (retry the other family, non-strict, on "no alive"): the
+answer is an answer of one of the two `SelectWithExclusionResult` calls, so everything above
+applies to it. -/
+theorem chooseSelect_is_a_select (rnd : Nat → Nat → Nat → Nat → Nat) (g : Group) (t : NetType)
+    (strict : Bool) (excl : Option Nat) :
+    chooseSelect rnd g t strict excl = select (rnd 0) g t strict excl ∨
+    (select (rnd 0) g t strict excl = .error .noAlive ∧
+      chooseSelect rnd g t strict excl = select (rnd 1) g t.flip false excl) :=
+  chooseSelect_cases rnd g t strict excl
+
+/-- **The fallbacks are consulted in the documented order**: the admitting domain is the first
+one of the chain (requested type; for data UDP then DNS-UDP, then TCP, same family) that has a
+selectable node — every earlier domain of the chain had none. -/
+theorem select_prefers_earlier_domain {rnd : Nat → Nat → Nat} {g : Group} {t : NetType} {p : Policy}
+    {fi : Int} {excl : Option Nat} (hg : GInv g) (hpg : g.policy ≠ .fixed) (hp : p ≠ .fixed) {x : SelOk}
+    (h : select1 rnd g t p fi excl = .ok x) :
+    ∃ pre ty post, chain t p = pre ++ ty :: post ∧
+      ((∃ e ∈ (g.sets ty.index).entries, e.d = x.d) ∧ excl ≠ some x.d) ∧
+      ∀ ty' ∈ pre, ∀ e ∈ (g.sets ty'.index).entries, excl = some e.d := by
+  have hhs : g.hasSets = true := by rw [hg.hasSets]; cases hq : g.policy <;> simp_all [needsAlive]
+  exact select1_first_selectable hp (fun ty => (hg.sets hhs ty).1) h
+
+/-- data UDP consults data-UDP, then DNS-UDP, then TCP, of the same family (type indices
+4/5, 0/1, 2/3) -/
+theorem data_udp_chain_order (ip6 isDns : Bool) (p : Policy) (hp : p ≠ .fixed) :
+    (chain ⟨true, ip6, isDns, .data⟩ p).map NetType.index =
+      [4 + (if ip6 then 1 else 0), 0 + (if ip6 then 1 else 0), 2 + (if ip6 then 1 else 0)] :=
+  chain_data_udp ip6 isDns p hp
+
+/-- **Once measured, always measured** (the `mono` hypothesis of `HistOk` is what the dialer side
+provides): after a successful probe with latency ≥ 1 ns, a policy that had a latency for the
+dialer still has one — for last / average-of-10 / moving-average alike. -/
+theorem measurement_once_always (c : Coll) (p : Policy) (pen pen' l : Int) (hl : 1 ≤ l)
+    (h : (c.snapshot p pen).isSome = true) : ((c.append l).snapshot p pen').isSome = true :=
+  snapshot_stays c p pen pen' l hl h
+
+example : ((Coll.empty.append 7).snapshot .minMovAvg 0) = some 3 := by decide
 
 /-- **The driver's deterministic form covers every answer**: whatever the random source, the
 answer of `select` is one of the answers listed by `selectAll` (which is what `c15drv` prints and
